@@ -123,6 +123,13 @@ def run(ctx):
         # non-finite / invalid first candle
         bad = (float("nan"), cs[0][1], cs[0][2], cs[0][3], cs[0][4])
         icases.append(ICase(name, "run", [], cs[0], cs[1:6], kind="default"))
+        # long one-sided streams (a noisy trend that never reverses, then the opposite one): counters of peaks, bars and trend
+        # lengths pass every 8-bit bound; the debug build panics on an overflowing counter
+        from .. import gens
+        legs = [(3000, 0.0008), (3000, -0.0008)] if ctx.tier == "quick" else [(9000, 0.0004), (9000, -0.0004), (300, 0.003)]
+        tcs = gens.trend_candles(rng.fork("c10-trend-" + name), legs)
+        for sets in [[]] + [list(x) for x in ind.DIRECTED.get(name, [])][:1]:
+            icases.append(ICase(name, "run", sets, tcs[0], tcs[1:], kind="long-one-sided", meta={"regime": "one-sided-trend"}))
     impl, _ = ctx.run_suite("indicator-parameters", icases, HEADER, model=False, theorem="Properties/C10.v")
     for c, io in zip(icases, impl):
         if io is None:
